@@ -224,13 +224,19 @@ func formatMATLAB(m Matrix, prefix string, _ int, _ byte, squeeze bool, fs fmt.S
 	rows, cols := m.Dims()
 
 	prec, pOk := fs.Precision()
-	width, _ := fs.Width()
+	width, wOk := fs.Width()
 	if !fs.Flag('#') {
 		switch c {
 		case 'v', 'e', 'E', 'f', 'F', 'g', 'G':
 		default:
 			fmt.Fprintf(fs, "%%!%c(%T=Dims(%d, %d))", c, m, rows, cols)
 			return
+		}
+		if !pOk {
+			prec = -1
+		}
+		if !wOk {
+			width = -1
 		}
 		format := fmtString(fs, c, prec, width)
 		fs.Write([]byte{'['})
@@ -337,13 +343,19 @@ func formatPython(m Matrix, prefix string, _ int, _ byte, squeeze bool, fs fmt.S
 	rows, cols := m.Dims()
 
 	prec, pOk := fs.Precision()
-	width, _ := fs.Width()
+	width, wOk := fs.Width()
 	if !fs.Flag('#') {
 		switch c {
 		case 'v', 'e', 'E', 'f', 'F', 'g', 'G':
 		default:
 			fmt.Fprintf(fs, "%%!%c(%T=Dims(%d, %d))", c, m, rows, cols)
 			return
+		}
+		if !pOk {
+			prec = -1
+		}
+		if !wOk {
+			width = -1
 		}
 		format := fmtString(fs, c, prec, width)
 		fs.Write([]byte{'['})
